@@ -143,6 +143,16 @@ func (r *RecUDPAssoc) Events() []UDPEvent {
 	defer r.mu.Unlock()
 	return append([]UDPEvent(nil), r.events...)
 }
+// RemovedAt returns when the first removal was reported (zero if not yet).
+func (r *RecUDPAssoc) RemovedAt() time.Time {
+	for _, e := range r.Events() {
+		if e.Kind == "removed" {
+			return e.At
+		}
+	}
+	return time.Time{}
+}
+
 func (r *RecUDPAssoc) Removed() int {
 	n := 0
 	for _, e := range r.Events() {
